@@ -17,6 +17,12 @@ Unit 2 classes (value tokens): `EmptyElement` 0 · `NumericElement` <bits> · `I
 `Annotation` kind isOpen flags optionalBlocks <n> int*n <n> int*n color author name modDate marker data ·
 `Annotations` major minor <n> item*n. For these the object is not changed by `write`: the fourth answer field is `=`.
 
+Unit 3 classes: `CommonStateInfo` version visible · `ShadowInfo` version blur intensity angle distance color <blend hex> enabled
+useGlobalAngle opacity color · glow body := version blur intensity color <blend hex> enabled opacity · `OuterGlowInfo` body
+opt color · `InnerGlowInfo` body opt<n> opt color · `BevelInfo` version angle depth blur <hex> <hex> color color style hlOpacity
+shOpacity enabled useGlobalAngle direction opt color opt color · `SolidFillInfo` version <hex> color opacity enabled color ·
+`EffectsLayer` version <n> (<key hex> <class 0..5> info)*n (0 common, 1 shadow, 2 outer glow, 3 inner glow, 4 bevel, 5 solid fill).
+
 Unit 1 classes: `LayerInfoBlock` (tokens of a LayerInfo), `TaggedBlock` (signature key payload, payload = `0 <hex>` raw |
 `1 <LayerInfo>`), `PSD` (the deep document: header, colour mode data, resources, layer info, global mask info,
 typed blocks, image data; `version` is ignored, `pad` is the layer-info padding).
@@ -26,6 +32,7 @@ import Driver.Psd
 import Driver.Descriptor
 import PsdVerif.Model.PayloadLayerInfo
 import PsdVerif.Model.PayloadSimple
+import PsdVerif.Model.PayloadEffects
 import PsdVerif.Model.DescriptorTables
 
 namespace Driver.Payload
@@ -112,6 +119,69 @@ def tAnnotations (x : Annotations) : T := tNat x.majorVersion ++ tNat x.minorVer
 
 def rtb : Descriptor.Tables := Descriptor.realTables
 
+/-! ### unit 3 tokens -/
+
+def pCommon : P CommonStateInfo := do let v ← pNat; let vis ← pNat; pure ⟨v, vis⟩
+def tCommon (x : CommonStateInfo) : T := tNat x.version ++ tNat x.visible
+
+def pShadow : P ShadowInfo := do
+  let v ← pNat; let bl ← pNat; let it ← pNat; let an ← pInt; let di ← pNat; let c ← pColor; let bm ← pBytes
+  let en ← pNat; let ug ← pNat; let op ← pNat; let nc ← pColor
+  pure ⟨v, bl, it, an, di, c, bm, en, ug, op, nc⟩
+def tShadow (x : ShadowInfo) : T :=
+  tNat x.version ++ tNat x.blur ++ tNat x.intensity ++ tInt x.angle ++ tNat x.distance ++ tColor x.color ++ tBytes x.blendMode ++
+  tNat x.enabled ++ tNat x.useGlobalAngle ++ tNat x.opacity ++ tColor x.nativeColor
+
+def pGlowBody : P GlowBody := do
+  let v ← pNat; let bl ← pNat; let it ← pNat; let c ← pColor; let bm ← pBytes; let en ← pNat; let op ← pNat
+  pure ⟨v, bl, it, c, bm, en, op⟩
+def tGlowBody (x : GlowBody) : T :=
+  tNat x.version ++ tNat x.blur ++ tNat x.intensity ++ tColor x.color ++ tBytes x.blendMode ++ tNat x.enabled ++ tNat x.opacity
+
+def pOuterGlow : P OuterGlowInfo := do let b ← pGlowBody; let n ← pOpt pColor; pure ⟨b, n⟩
+def tOuterGlow (x : OuterGlowInfo) : T := tGlowBody x.body ++ tOpt tColor x.nativeColor
+def pInnerGlow : P InnerGlowInfo := do let b ← pGlowBody; let i ← pOpt pNat; let n ← pOpt pColor; pure ⟨b, i, n⟩
+def tInnerGlow (x : InnerGlowInfo) : T := tGlowBody x.body ++ tOpt tNat x.invert ++ tOpt tColor x.nativeColor
+
+def pBevel : P BevelInfo := do
+  let v ← pNat; let an ← pInt; let de ← pNat; let bl ← pNat; let hb ← pBytes; let sb ← pBytes; let hc ← pColor; let sc ← pColor
+  let st ← pNat; let ho ← pNat; let so ← pNat; let en ← pNat; let ug ← pNat; let di ← pNat; let rh ← pOpt pColor; let rs ← pOpt pColor
+  pure ⟨v, an, de, bl, hb, sb, hc, sc, st, ho, so, en, ug, di, rh, rs⟩
+def tBevel (x : BevelInfo) : T :=
+  tNat x.version ++ tInt x.angle ++ tNat x.depth ++ tNat x.blur ++ tBytes x.highlightBlendMode ++ tBytes x.shadowBlendMode ++
+  tColor x.highlightColor ++ tColor x.shadowColor ++ tNat x.bevelStyle ++ tNat x.highlightOpacity ++ tNat x.shadowOpacity ++
+  tNat x.enabled ++ tNat x.useGlobalAngle ++ tNat x.direction ++ tOpt tColor x.realHighlightColor ++ tOpt tColor x.realShadowColor
+
+def pSolidFill : P SolidFillInfo := do
+  let v ← pNat; let bm ← pBytes; let c ← pColor; let op ← pNat; let en ← pNat; let nc ← pColor
+  pure ⟨v, bm, c, op, en, nc⟩
+def tSolidFill (x : SolidFillInfo) : T :=
+  tNat x.version ++ tBytes x.blendMode ++ tColor x.color ++ tNat x.opacity ++ tNat x.enabled ++ tColor x.nativeColor
+
+def pEffect : P Effect := do
+  let tag ← pNat
+  match tag with
+  | 0 => do let x ← pCommon; pure (.common x)
+  | 1 => do let x ← pShadow; pure (.shadow x)
+  | 2 => do let x ← pOuterGlow; pure (.outerGlow x)
+  | 3 => do let x ← pInnerGlow; pure (.innerGlow x)
+  | 4 => do let x ← pBevel; pure (.bevel x)
+  | 5 => do let x ← pSolidFill; pure (.solidFill x)
+  | _ => failure
+def tEffect : Effect → T
+  | .common x => "0" :: tCommon x
+  | .shadow x => "1" :: tShadow x
+  | .outerGlow x => "2" :: tOuterGlow x
+  | .innerGlow x => "3" :: tInnerGlow x
+  | .bevel x => "4" :: tBevel x
+  | .solidFill x => "5" :: tSolidFill x
+
+def pEffectsLayer : P EffectsLayer := do
+  let v ← pNat
+  let items ← pList (do let k ← pBytes; let e ← pEffect; pure (k, e))
+  pure ⟨v, items⟩
+def tEffectsLayer (x : EffectsLayer) : T := tNat x.version ++ tList (fun (kv : B × Effect) => tBytes kv.1 ++ tEffect kv.2) x.items
+
 /-! ### answers -/
 
 def encOut (r : Except Err W) (wf : Bool) (after : T) : String :=
@@ -151,6 +221,13 @@ def encCmd (cls : String) (v pad : Nat) (toks : String) : String :=
   | "MetadataSettings" => pcEnc (MetadataSettings.codec rtb) (pList pMetadataSetting) toks
   | "Annotation" => pcEnc Annotation.codec pAnnotation toks
   | "Annotations" => pcEnc Annotations.codec pAnnotations toks
+  | "CommonStateInfo" => pcEnc CommonStateInfo.codec pCommon toks
+  | "ShadowInfo" => pcEnc ShadowInfo.codec pShadow toks
+  | "OuterGlowInfo" => pcEnc OuterGlowInfo.codec pOuterGlow toks
+  | "InnerGlowInfo" => pcEnc InnerGlowInfo.codec pInnerGlow toks
+  | "BevelInfo" => pcEnc BevelInfo.codec pBevel toks
+  | "SolidFillInfo" => pcEnc SolidFillInfo.codec pSolidFill toks
+  | "EffectsLayer" => pcEnc EffectsLayer.codec pEffectsLayer toks
   | "LayerInfoBlock" =>
     (match parseAll pLayerInfo toks with
      | some li => encOut (LayerInfoBlock.encW v pad li) (decide (LayerInfoBlock.WF v li)) (tLayerInfo (blockRefresh li))
@@ -190,6 +267,13 @@ def decCmd (cls : String) (v pad : Nat) (d : B) (p : Nat) : String :=
   | "MetadataSettings" => pcDec (MetadataSettings.codec rtb) (tList tMetadataSetting) d p
   | "Annotation" => pcDec Annotation.codec tAnnotation d p
   | "Annotations" => pcDec Annotations.codec tAnnotations d p
+  | "CommonStateInfo" => pcDec CommonStateInfo.codec tCommon d p
+  | "ShadowInfo" => pcDec ShadowInfo.codec tShadow d p
+  | "OuterGlowInfo" => pcDec OuterGlowInfo.codec tOuterGlow d p
+  | "InnerGlowInfo" => pcDec InnerGlowInfo.codec tInnerGlow d p
+  | "BevelInfo" => pcDec BevelInfo.codec tBevel d p
+  | "SolidFillInfo" => pcDec SolidFillInfo.codec tSolidFill d p
+  | "EffectsLayer" => pcDec EffectsLayer.codec tEffectsLayer d p
   | "LayerInfoBlock" => decOut tLayerInfo (LayerInfoBlock.dec v d p)
   | "TaggedBlock" => decOut (tOpt tTBlock) (TBlock.dec v pad d p)
   | "PSD" => decOut tDeepPSD (DeepPSD.read d p)
